@@ -2,5 +2,5 @@ From Coq Require Import ExtrOcamlBasic.
 From GS Require Import Num Loops Summator_gen C15_KernelSpec C12_Model C17_Model.
 Extraction "c17_model.ml" proto_anchor
   generate_grid grid_size fill_to_dim two_pi delta_k arange_modes mode_axes set_modes grid_of k_norm
-  spectrum_factor shift_axis isclose model_close fs_empty step init run edit_period edit_mode_no
+  spectrum_factor shift_axis isclose model_close fs_empty step step_gen init run edit_period edit_mode_no edit_model
   summate_fourier summate_fourier_spec isometrize rotated_main_axes.
